@@ -132,6 +132,7 @@ var plainStrings = []string{
 	"1.2345678e+07", "1e+21", "1.234e-05", "2.5", "-0.5", "1e-07", "123456.7", "false", "9007199254740993",
 	"cost$5", "Tr0ub4dor$3x", "${HOME}", "$PATH", "100%", "a=b&c", "x;y", "a+b",
 	`"q"`, `'q'`, `"`, `'`, `say "hi"`, `\n`, "#c", "[1]", "{a}", "a,b",
+	"привет-мир-это-я-снова", "日本語のテキストですよろしくお願いします", "ünïcödé-strïng-that-ïs-löng-énöügh", "😀😀😀😀😀😀😀😀😀😀😀😀", // long multi-byte texts (bytes and characters differ widely)
 }
 
 var emailStrings = []string{"a@b.c", "user@example.com", "first.last@sub.example.org", "x+y@host-1.io", "A1@b2.c3"}
